@@ -1,4 +1,32 @@
-"""C08 - Untrusted input never crashes or hangs the parsers."""
+"""C08 - Untrusted input never crashes or hangs the parsers.
+
+The property is a proof obligation ("no exception class outside the documented one can escape", "every loop ends"), so
+these rules stay two-valued: what cannot be shown impossible is reported, with the entry point, the call path and the
+primitive site.  The facts the proofs use are derived from the current source on every run (csverif/effects.py,
+csverif/loops.py) and listed under `facts_used` in the evidence.
+
+Technique (numbers: ALLOWED devices of RULES_GUIDE.md, "What counts as static here")
+  R1  1 (resolved call graph from the untrusted-input entry points), 4 (interprocedural may-raise analysis: a frozen table
+      of primitive effects - struct parse -> EOFError, seek with a possibly negative offset -> ValueError/OSError, subscript,
+      division, unpacking, int()/decode ... - and per-site facts that discharge a primitive: sign facts of seek offsets
+      (unsigned struct fields from the C definitions, range/tell/len, parameters over all reachable call sites, return
+      values, for-targets over generators, tuple unpacking of tuple literals), length facts of sequences (dominating
+      `len(x) <op> k` / truthiness tests, short-circuit operands, element lengths of most_common()/items()/grouper()),
+      non-zero divisors, stream kind (BytesIO clips relative seeks), the give-back fact, the validated-DOS-header fact,
+      the scanner summary (C15.R1 and C15.R3 evaluated on the current tree)), 2 (try/except context of each site on the
+      CFG; dominating conditions), 3 (definitions followed through copies, tuple unpacking, `next(<genexp>, None)`, lazily
+      evaluated generator expressions charged where they are consumed), 6 (constants).  Lemmas: a relative seek of
+      n - <bytes this function consumed from the stream> cannot pass the start; `k * q` and `x % k` facts as listed in
+      effects.py; `seq[x % k]` is in range when len(seq) >= k > 0.
+  R2  2 (every cycle of a `while` loop, restricted to the loop's own nodes, passes a progress-and-exhaustion node: a struct
+      parse; the non-exhausted edge of an exhaustion test on a value read in the loop whose exhausted edge leaves the
+      loop; the found edge of a search that restarts at the previous match + 1 - also when the search drives the loop
+      header; `next(it)` in a loop whose header asks the same iterator), 3 (tests in negation normal form, definitions of
+      the tested value), position-variable progress (`v += k` / `v = v + k`, k > 0) on every cycle; self-recursion must
+      switch its own guard off.  `for` loops over finite iterables are taken as terminating.
+  R3  2 (from the exhaustion edge of the scan loop only `return None` is reachable, other returns are behind an
+      `is None` separation; no `raise`), exits of the other entry points by class.
+  R4  imported C17.R2 (rules/c17.py)."""
 
 from __future__ import annotations
 
